@@ -79,8 +79,21 @@ Readers == \E s \in Stages :
              /\ Logged(s) /\ (fl[s] = "idle" \/ (fl[s] = "eff" /\ sg[s].last.k = "item"))
              /\ InputSide(s)
              /\ UNCHANGED <<l, fl, pend>>
-Unlogged == \E s \in Stages : ~Logged(s) /\ (PutLike(s) \/ FwdPut(s) \/ DeliverCb(s)) /\ UNCHANGED <<l, fl, pend>>
-EagerUnlogged == \E s \in Stages : ~Logged(s) /\ (NonPut(s) \/ InputSide(s)) /\ UNCHANGED <<l, fl, pend>>
+\* An unlogged (builtin) stage: before its reader has left (sendStop still open) a Put with room can only send,
+\* and what it does after the reader has left is seen by nobody; with a producer that writes no lines the
+\* callback order is the channel order.  So those steps are eager too; the rest floats.
+StopSet(s) == IF s < N THEN lk[s].sendStop ELSE FALSE
+UpBytes(s) == IF s > 1 THEN HasOp(Script(s-1), "putb") ELSE FALSE
+Unlogged == \E s \in Stages : /\ ~Logged(s)
+                               /\ \/ StopSet(s) /\ (PutSend(s) \/ PutStopped(s) \/ FwdPut(s))
+                                  \/ WriteB(s) \/ WriteEPIPE(s)
+                                  \/ UpBytes(s) /\ DeliverCb(s)
+                               /\ UNCHANGED <<l, fl, pend>>
+EagerUnlogged == \E s \in Stages : /\ ~Logged(s)
+                                    /\ \/ NonPut(s) \/ InputSide(s)
+                                       \/ ~StopSet(s) /\ (PutSend(s) \/ FwdSend(s))
+                                       \/ ~UpBytes(s) /\ DeliverCb(s)
+                                    /\ UNCHANGED <<l, fl, pend>>
 Eager == EagerEffect \/ Readers \/ EagerUnlogged
 MayExit(s) == sg[s].st \notin {"run", "done"} /\ (Logged(s) => fl[s] = "ended")
 UrgentPh == {"ret", "serr", "stop", "gone", "wclose", "cclose", "wgdone"}
